@@ -586,6 +586,9 @@ func main() {
 		okSeqs.Add(ok)
 	})
 	fb := fallbackAfterFailedDecode(r, alpha)
+	mx := mixedConsumption(r, alpha)
+	r.Set("mixed_consumption_cases", mx)
+	seqs.Add(mx)
 	r.Set("fallback_after_failed_typed_decode_cases", fb)
 	seqs.Add(fb)
 	r.Set("skip_field_alphabet", len(alpha))
@@ -594,7 +597,7 @@ func main() {
 	r.Sample(map[string]any{"skip_sequence": []string{alpha[3].desc, alpha[9].desc, alpha[len(alpha)-1].desc}, "modes": "safe,fast"})
 	r.Evals(cases.Load() + seqs.Load())
 	r.Nontrivial(cases.Load() + seqs.Load())
-	r.Rule("deterministic enumeration, cases pairwise distinct by construction. Triple case: csproto Encoder bytes must equal the spec-derived reference and protowire (the two references are cross-checked; disagreement = internal error), the exported package-level primitives (EncodeVarint/Tag/ZigZag32/64/Fixed32/64, DecodeVarint/ZigZag32/64/Fixed32/64, SizeOfVarint/ZigZag/TagKey) called directly over the same value and tag sets: bytes, counts, decode with any trailing bytes in buffers of exactly 9/10/11 bytes, every proper prefix an error; message-typed fields (EncodeNested with self-sizing, marshal-only, google-v2 and gogo children of 0..16384 bytes; EncodeMapEntryHeader) must be key+length+child for every child length including 0; and the reference bytes must decode with the real Decoder (safe+fast) to the reference value with full consumption. Skip case: every sequence of <= L well-formed fields over the field alphabet (8 numbers x {4 varint widths, fixed64, fixed32, 4 LEN sizes} + 3 numbers x {key padded by 1 or 2 zero groups} x {varint, fixed32, LEN}); DecodeTag+Skip must return input[start:end], leave the cursor at end, and the concatenation must reproduce the input. Fallback case: key read, a single-value typed decoder (13 scalar kinds, string, bytes) tried and FAILED (value beyond 32 bits, payload of the wrong shape) on every field of the alphabet and on over-wide varints / odd LEN payloads, then Skip must still return the complete field and leave the cursor on the next key, and the widest decoder of the wire type must read the reference value. distinct_nontrivial = cases that reached the byte/value comparison (all of them).")
+	r.Rule("deterministic enumeration, cases pairwise distinct by construction. Triple case: csproto Encoder bytes must equal the spec-derived reference and protowire (the two references are cross-checked; disagreement = internal error), the exported package-level primitives (EncodeVarint/Tag/ZigZag32/64/Fixed32/64, DecodeVarint/ZigZag32/64/Fixed32/64, SizeOfVarint/ZigZag/TagKey) called directly over the same value and tag sets: bytes, counts, decode with any trailing bytes in buffers of exactly 9/10/11 bytes, every proper prefix an error; message-typed fields (EncodeNested with self-sizing, marshal-only, google-v2 and gogo children of 0..16384 bytes; EncodeMapEntryHeader) must be key+length+child for every child length including 0; and the reference bytes must decode with the real Decoder (safe+fast) to the reference value with full consumption. Skip case: every sequence of <= L well-formed fields over the field alphabet (8 numbers x {4 varint widths, fixed64, fixed32, 4 LEN sizes} + 3 numbers x {key padded by 1 or 2 zero groups} x {varint, fixed32, LEN}); DecodeTag+Skip must return input[start:end], leave the cursor at end, and the concatenation must reproduce the input. Fallback case: key read, a single-value typed decoder (13 scalar kinds, string, bytes) tried and FAILED (value beyond 32 bits, payload of the wrong shape) on every field of the alphabet and on over-wide varints / odd LEN payloads, then Skip must still return the complete field and leave the cursor on the next key, and the widest decoder of the wire type must read the reference value. Mixed consumption: three consecutive fields (every ordered pair of alphabet fields + a one-byte-key field), each consumed by Skip / the widest typed decoder / a no-op Seek then Skip / typed decode, Seek back behind the key, Skip - all 64 combinations, both modes: every Skip returns the complete field, the cursor ends on the next key. distinct_nontrivial = cases that reached the byte/value comparison (all of them).")
 	r.Assume("keys are minimal (conforming writers); group wire types 3/4 are outside the supported set")
 	r.Finish()
 }
